@@ -60,7 +60,7 @@ Proof.
 Qed.
 
 (* a fold that adds [f b] for the items with [f b = Some _] *)
-Variable B : Type.
+Context {B : Type}.
 Variable f : B -> option A.
 Definition ostep (l : list A) (b : B) : list A :=
   match f b with Some a => set_add eqb a l | None => l end.
@@ -274,19 +274,19 @@ Lemma collected_keys i :
   flat_map (fun pt => flat_map keys_of (pt_keys pt)) (collected i) = validated_keys i.
 Proof.
   unfold collected, validated_keys. rewrite flat_map_concat_map, map_map, <- flat_map_concat_map.
-  destruct (cf_bgpsec (i_cfg i)) eqn:E.
+  generalize (i_points i) as l. destruct (cf_bgpsec (i_cfg i)) eqn:E; intros l.
   - apply flat_map_ext. intros pp. cbn [collect pt_keys]. rewrite E. reflexivity.
-  - induction (i_points i) as [|pp t IH]; cbn [flat_map]; [reflexivity|].
-    cbn [collect pt_keys]. rewrite E, IH. reflexivity.
+  - induction l as [|pp t IH]; cbn [flat_map]; [reflexivity|].
+    rewrite IH. cbn [collect pt_keys]. rewrite E. reflexivity.
 Qed.
 
 Lemma collected_aspas i : flat_map pt_aspas (collected i) = aspa_objects i.
 Proof.
   unfold collected, aspa_objects. rewrite flat_map_concat_map, map_map, <- flat_map_concat_map.
-  destruct (cf_aspa (i_cfg i)) eqn:E.
+  generalize (i_points i) as l. destruct (cf_aspa (i_cfg i)) eqn:E; intros l.
   - apply flat_map_ext. intros pp. cbn [collect pt_aspas]. rewrite E. reflexivity.
-  - induction (i_points i) as [|pp t IH]; cbn [flat_map]; [reflexivity|].
-    cbn [collect pt_aspas]. rewrite E, IH. reflexivity.
+  - induction l as [|pp t IH]; cbn [flat_map]; [reflexivity|].
+    rewrite IH. cbn [collect pt_aspas]. rewrite E. reflexivity.
 Qed.
 
 (* ---- rejected resources ------------------------------------------------------ *)
@@ -415,10 +415,10 @@ Proof.
   - rewrite in_flat_map. split.
     + intros (pp & Hpp & H). apply in_flat_map in H as (pk & Hpk & H). unfold keys_of in H.
       apply in_map_iff in H as (asn & <- & H). unfold iter_asns in H. apply in_flat_map in H as (b & Hb & H).
-      apply nrange_In in H. split; [reflexivity|]. exists pp, pk, b. cbn [k_asn k_ski k_info]. auto.
+      apply nrange_In in H. split; [reflexivity|]. exists pp, pk, b. cbn [k_asn k_ski k_info]. repeat split; auto; lia.
     + intros (_ & pp & pk & b & Hpp & Hpk & Hb & Hr & Hs & Hi). exists pp. split; [exact Hpp|].
       apply in_flat_map. exists pk. split; [exact Hpk|]. unfold keys_of. apply in_map_iff. exists (k_asn k). split.
-      * destruct k; cbn [k_ski k_asn k_info] in *; subst; reflexivity.
+      * destruct k as [s a n]; cbn in Hs, Hi |- *; subst; reflexivity.
       * unfold iter_asns. apply in_flat_map. exists b. split; [exact Hb | apply nrange_In; exact Hr].
   - split; [intros [] | intros [E _]; discriminate].
 Qed.
